@@ -129,8 +129,10 @@ func (a *API) onRecordingDeleteSegment(ctx *gin.Context) {
 		return
 	}
 
+	// segment file names are written in the server's time zone,
+	// while the client may have expressed the same instant with any UTC offset.
 	segmentPath := recordstore.Path{
-		Start: start,
+		Start: start.Local(),
 	}.Encode(pathFormat)
 
 	segmentPath, err = absolutePathInside(commonPath, segmentPath)
